@@ -207,6 +207,31 @@ def appended_fields(cat, b):
     return fields, fwd
 
 
+def r_reserve_exact_count(F, R, cat=None):
+    """every reserve_items derives its amounts from an exact count of the announced items"""
+    cat = cat or Catalogue(F)
+    n = 0
+    for b in F.methods_of_trait("ReserveItems", "reserve_items"):
+        if b.in_tests():
+            continue
+        ctx, effs = cat.effects(b)
+        res = [e for e in effs if e.cls == "reserve" and e.tag[1] in ("reserve",) and self_field_targets(e, ctx)]
+        if not res:
+            continue
+        n += 1
+        R.saw(b)
+        bad = []
+        for e in res:
+            for os_ in e.argorigins[1:]:
+                t = trees(e.ctx, os_)
+                names = {nd[1][1] for nd in walk(t) if nd[0] == "call"}
+                if "size_hint" in names or not (names & {"count", "sum", "len"}):
+                    bad.append(show(t)[:80])
+        R.check("R-RESERVE-ITEMS", b.label(), not bad, construct="reserve amount is an exact count of the items",
+                where=b.where(), detail="amounts not from count/sum/len: %s" % bad if bad else "count/sum/len of the announced items")
+    R.floor("R-RESERVE-ITEMS", "reserve_items bodies that reserve directly", n, 6)
+
+
 def r_reserve_items_agree(F, R, cat=None):
     cat = cat or Catalogue(F)
     n = 0
@@ -243,6 +268,12 @@ def r_reserve_items_agree(F, R, cat=None):
                     if not fp and not any(r == ("arg", 2) for (c, (r, p)) in
                                           [x for o in origins for x in base_places(e.ctx, o)]):
                         const_amount.append(f)
+        inexact = [e for e in effs if e.kind == "call" and e.tag in (("Iterator", "size_hint"),)]
+        if inexact:
+            R.check("R-RESERVE-ITEMS", b.label(), False, construct="reserve amount from size_hint",
+                    where=inexact[0].where(),
+                    detail="size_hint is a lower bound (0 for filter_map/flatten), not the number of announced items")
+            continue
         if rfwd:
             R.check("R-RESERVE-ITEMS", b.label(), True, construct="forwards to another reserve_items form",
                     where=b.where(), nontrivial=False)
@@ -282,7 +313,11 @@ def r_noalloc(F, R, cat=None):
                               ("Extend", "extend")) or
         (b.trait is None and (b.self_adt, b.name) in (("FlatStack", "copy"),
                                                       ("impls::index::IndexList", "push"),
-                                                      ("impls::index::Stride", "push"))))]
+                                                      ("impls::index::Stride", "push"),
+                                                      ("FlatStack", "reserve"),
+                                                      ("impls::index::IndexList", "reserve"))) or
+        # reserve is reached from push paths (FlatStack::extend), so it must stay amortised too
+        (b.trait, b.name) in (("Storage", "reserve"), ("Storage", "reserve_regions")))]
     for b in bodies:
         if b.self_adt in CODED:
             continue
